@@ -596,7 +596,9 @@ class Signature:
                 raise InvalidSignature(f"names {name} and {param.name} do not match")
             disallowed_previous = seen_kinds - KIND_TO_ALLOWED_PREVIOUS[param.kind]
             if disallowed_previous:
-                disallowed_text = ", ".join(kind.name for kind in disallowed_previous)
+                disallowed_text = ", ".join(
+                    sorted(kind.name for kind in disallowed_previous)
+                )
                 raise InvalidSignature(
                     f"param {param} of kind {param.kind.name} may not follow param of"
                     f" kind {disallowed_text} {self.parameters}"
@@ -1114,7 +1116,7 @@ class Signature:
         if not star_kwargs_consumed:
             extra_kwargs = set(actual_args.keywords) - keywords_consumed
             if extra_kwargs:
-                extra_kwargs_str = ", ".join(map(repr, extra_kwargs))
+                extra_kwargs_str = ", ".join(map(repr, sorted(extra_kwargs)))
                 if len(extra_kwargs) == 1:
                     message = f"Got an unexpected keyword argument {extra_kwargs_str}"
                 else:
